@@ -1,4 +1,5 @@
 import Bip39V.Lemmas.Runs
+import Bip39V.Lemmas.NfkdIdem
 import Bip39V.Props.Norm
 import Bip39V.Props.C02
 import Bip39V.Props.C14
@@ -93,6 +94,13 @@ matters — shows the structure is inhabited when restricted to stream-safe inpu
 assumptions are not contradictory (`agrees` and `overflow` talk about disjoint classes). -/
 example (s : Str) (h : streamSafe s = true) : (fun t => nfkd t) s = nfkd s ∧ ¬ streamSafe s = false := ⟨rfl, by simp [h]⟩
 
+/-- the NFKD spelling of any string has the same NFKD form as the string (`nfkd_idempotent`), so it
+gets the same verdict: typing a mnemonic fully decomposed changes nothing -/
+theorem c10_nfkd_spelling (N : Normaliser) (D : Bytes → Bytes) (hD : ∀ x, (D x).length = 32) (s : Str) (ℓ : Int) :
+    checkMnemonic N.X D (nfkd s) ℓ = .ok () ↔ checkMnemonic N.X D s ℓ = .ok () :=
+  c10_verdict N D hD (nfkd s) s ℓ (nfkd_idempotent s)
+
+#print axioms c10_nfkd_spelling
 #print axioms c10_same
 #print axioms c10_verdict
 #print axioms c10_spellings
